@@ -19,8 +19,10 @@
        bill.Invoice ($regime from the supplier's tax country).
    Outside the modelled domain the result is `Dom` (the correspondence check counts and skips those):
    member names that only match a field case-insensitively, duplicate members of a struct, null where Go
-   keeps a zero value of a type with its own codec, date-times / uuids / signatures / floats / byte slices
-   that are not in the canonical spelling the library itself writes, legacy `tags` of bill.Tax.
+   keeps a zero value of a type with its own codec, signatures / floats / byte slices that are not in the
+   canonical spelling the library itself writes, legacy `tags` of bill.Tax.
+   uuid.UUID and cal.DateTime are read exactly (parse_uuid, parse_datetime): every spelling the forgiving Go
+   readers accept gives the canonical text, every other one is refused.
    Model only: no proofs in this file. *)
 From Coq Require Import String.
 From Coq Require Import List ZArith Strings.Byte Bool.
@@ -143,7 +145,8 @@ Definition reenc_int (signed : bool) (bits : Z) (s : bytes) : res tv :=
       (if neg then (if u =? 0 then Dom else Bad)
        else if z <? 2 ^ bits then Ok (TNum (print_int z)) else Bad).
 
-(* the canonical spellings the library writes for the leaves whose readers are not modelled *)
+(* ---- uuid.UUID: UnmarshalText -> uuid.Parse (repo) -> github.com/google/uuid Parse; written as the string it holds ---- *)
+(* the form the library writes: lower-case hexadecimal digits in groups of 8-4-4-4-12 *)
 Definition is_hex_lower (b : byte) : bool := is_digit b || ((97 <=? bZ b) && (bZ b <=? 102)).
 Fixpoint uuid_shape (pos : nat) (s : bytes) : bool :=
   match s with
@@ -154,21 +157,147 @@ Fixpoint uuid_shape (pos : nat) (s : bytes) : bool :=
   end.
 Definition canonical_uuid (s : bytes) : bool := is_nil s || uuid_shape 0 s.
 
-(* YYYY-MM-DDTHH:MM:SS with a real calendar date (year >= 1) and a real time of day *)
+(* xvalues of google/uuid (a hexadecimal digit in either case), composed with encodeHex (lower case) *)
+Definition hex_lower_of (b : byte) : option byte :=
+  let z := bZ b in
+  if is_hex_lower b then Some b
+  else if (65 <=? z) && (z <=? 70) then Some (byte_of_Z (z + 32))
+  else None.
+Definition is_hex (b : byte) : bool := match hex_lower_of b with Some _ => true | None => false end.
+Definition lower_hex (b : byte) : byte := match hex_lower_of b with Some c => c | None => b end.
+
+(* n hexadecimal digits (written back in lower case) and what follows them *)
+Fixpoint hex_run (n : nat) (s : bytes) : option (bytes * bytes) :=
+  match n with
+  | O => Some ([], s)
+  | S n' =>
+    match s with
+    | [] => None
+    | b :: r =>
+      match hex_lower_of b, hex_run n' r with
+      | Some c, Some (h, rest) => Some (c :: h, rest)
+      | _, _ => None
+      end
+    end
+  end.
+Definition dash_then (n : nat) (s : bytes) : option (bytes * bytes) :=
+  match s with
+  | b :: r => if Byte.eqb b c_dash then
+                match hex_run n r with Some (h, rest) => Some (c_dash :: h, rest) | None => None end
+              else None
+  | [] => None
+  end.
+(* xxxxxxxx-xxxx-xxxx-xxxx-xxxxxxxxxxxx at the head of s: bytes 8, 13, 18, 23 are hyphens, the sixteen pairs
+   are hexadecimal; whatever follows the 36 bytes is not looked at *)
+Definition uuid_body (s : bytes) : option bytes :=
+  match hex_run 8 s with
+  | Some (g1, r1) =>
+    match dash_then 4 r1 with
+    | Some (g2, r2) =>
+      match dash_then 4 r2 with
+      | Some (g3, r3) =>
+        match dash_then 4 r3 with
+        | Some (g4, r4) =>
+          match dash_then 12 r4 with
+          | Some (g5, _) => Some (g1 ++ g2 ++ g3 ++ g4 ++ g5)%list
+          | None => None
+          end
+        | None => None
+        end
+      | None => None
+      end
+    | None => None
+    end
+  | None => None
+  end.
+(* the 8-4-4-4-12 grouping of 32 digits *)
+Definition hyphenate (h : bytes) : bytes :=
+  (firstn 8 h ++ c_dash :: firstn 4 (skipn 8 h) ++ c_dash :: firstn 4 (skipn 12 h) ++ c_dash :: firstn 4 (skipn 16 h)
+   ++ c_dash :: skipn 20 h)%list.
+Definition urn_prefix : bytes := bs "urn:uuid:".
+(* the text the field holds after reading s (None: an error).  By length: "" stays ""; 36 = the standard
+   form; 45 = a prefix equal to "urn:uuid:" up to ASCII case (strings.EqualFold: no letter of the prefix has
+   a non-ASCII case variant) and the standard form; 38 = ANY byte, the standard form, ANY byte ("{...}", but
+   the braces are not checked); 32 = bare digits; every other length is refused *)
+Definition parse_uuid (s : bytes) : option bytes :=
+  let n := length s in
+  if is_nil s then Some []
+  else if Nat.eqb n 36 then uuid_body s
+  else if Nat.eqb n 45 then (if fold_eq (firstn 9 s) urn_prefix then uuid_body (skipn 9 s) else None)
+  else if Nat.eqb n 38 then uuid_body (tl s)
+  else if Nat.eqb n 32 then
+    match hex_run 32 s with Some (h, _) => Some (hyphenate h) | None => None end
+  else None.
+
+(* ---- cal.DateTime: UnmarshalJSON (cal/date_time.go) over civil.ParseDateTime = time.Parse with the layout
+   "2006-01-02T15:04:05.999999999", then the same with a lower-case t; written by civil.DateTime.String ---- *)
+Definition text_zero_datetime : bytes := bs "0000-00-00T00:00:00".
 Definition two_digits (a b : byte) : option Z :=
   if is_digit a && is_digit b then Some (dv a * 10 + dv b) else None.
+(* the form the library writes: the zero text, or YYYY-MM-DDTHH:MM:SS with a real calendar date (year 0 is a
+   leap year) and a real time of day *)
 Definition canonical_datetime (s : bytes) : bool :=
+  eqb_bytes s text_zero_datetime ||
   match s with
   | [y1; y2; y3; y4; d1; m1; m2; d2; a1; a2; t; h1; h2; c1; n1; n2; c2; s1; s2] =>
-    Byte.eqb d1 c_dash && Byte.eqb d2 c_dash && Byte.eqb t x54 && Byte.eqb c1 x3a && Byte.eqb c2 x3a &&
+    Byte.eqb t x54 && Byte.eqb c1 x3a && Byte.eqb c2 x3a &&
     match parse_date [y1; y2; y3; y4; d1; m1; m2; d2; a1; a2], two_digits h1 h2, two_digits n1 n2, two_digits s1 s2 with
-    | Some d, Some h, Some n, Some sec =>
-      negb (d_year d =? 0) && eqb_bytes (print_date d) [y1; y2; y3; y4; d1; m1; m2; d2; a1; a2]
-      && (h <? 24) && (n <? 60) && (sec <? 60)
+    | Some d, Some h, Some n, Some sec => date_valid d && (h <? 24) && (n <? 60) && (sec <? 60)
     | _, _, _, _ => false
     end
   | _ => false
   end.
+
+(* what may follow the seconds (layout element .999999999): nothing, or '.' or ',' and one or more digits up to
+   the end of the text.  time.Parse keeps the first nine digits; the repository refuses a fraction that is not
+   zero (and so accepts ".000", ",0" and ".0000000009") *)
+Definition frac_sep (b : byte) : bool := Byte.eqb b x2e || Byte.eqb b x2c.
+Definition frac_zero (f : bytes) : bool :=
+  match f with
+  | [] => true
+  | p :: d :: r => frac_sep p && all_digits (d :: r) && forallb (fun b => Byte.eqb b b_zero) (firstn 9 (d :: r))
+  | _ => false
+  end.
+(* ":MM:SS" and the fraction, after an hour h: minute and second have exactly two digits *)
+Definition clock_rest (h : Z) (r : bytes) : option bytes :=
+  match r with
+  | c1 :: n1 :: n2 :: c2 :: s1 :: s2 :: f =>
+    match two_digits n1 n2, two_digits s1 s2 with
+    | Some n, Some sec =>
+      if Byte.eqb c1 x3a && Byte.eqb c2 x3a && (h <? 24) && (n <? 60) && (sec <? 60) && frac_zero f
+      then Some (pad2 h ++ x3a :: pad2 n ++ x3a :: pad2 sec)%list else None
+    | _, _ => None
+    end
+  | _ => None
+  end.
+(* the hour (layout element 15) is read by getnum(value, fixed = false): two digits, or ONE digit when the
+   byte behind it is not a digit *)
+Definition parse_clock (r : bytes) : option bytes :=
+  match r with
+  | h1 :: h2 :: r2 =>
+    if is_digit h1 then
+      (if is_digit h2 then clock_rest (dv h1 * 10 + dv h2) r2 else clock_rest (dv h1) (h2 :: r2))
+    else None
+  | _ => None
+  end.
+(* the text written for the value read from s (None: an error) *)
+Definition parse_datetime (s : bytes) : option bytes :=
+  if eqb_bytes s text_zero_datetime then Some s
+  else
+    match s with
+    | y1 :: y2 :: y3 :: y4 :: d1 :: m1 :: m2 :: d2 :: a1 :: a2 :: t :: r =>
+      match parse_date [y1; y2; y3; y4; d1; m1; m2; d2; a1; a2] with
+      | Some d =>
+        if date_valid d && (Byte.eqb t x54 || Byte.eqb t x74) then
+          match parse_clock r with
+          | Some c => Some (print_date d ++ x54 :: c)%list
+          | None => None
+          end
+        else None
+      | None => None
+      end
+    | _ => None
+    end.
 
 (* a compact JWS: three non-empty runs of base64url characters separated by two dots *)
 Definition is_b64url (b : byte) : bool :=
@@ -181,14 +310,20 @@ Definition canonical_sig (s : bytes) : bool :=
   | _ => false
   end.
 
-(* a float the library writes back as given: an integer part without leading zero, at most six
-   decimals without trailing zero, at most fifteen significant digits, not "-0" *)
+(* an unsigned integer literal of JSON: 0, or a digit string without leading zero (no sign) *)
+Definition json_uint_text (t : bytes) : bool :=
+  match t with
+  | [] => false
+  | d :: r => all_digits t && (is_nil r || negb (Byte.eqb d b_zero))
+  end.
+(* a float the library writes back as given: ONE optional minus, an integer part without leading zero, at
+   most six decimals without trailing zero, at most fifteen significant digits, not "-0" *)
 Definition canonical_float (s : bytes) : bool :=
   let t := trim_minus s in
   match split_dot t with
-  | [i] => json_int_text t && (Nat.leb (length i) 15) && negb (has_minus s && (value_of_digits i =? 0))
+  | [i] => json_uint_text i && (Nat.leb (length i) 15) && negb (has_minus s && (value_of_digits i =? 0))
   | [i; f] =>
-    json_int_text i && all_digits f && negb (is_nil f) && Nat.leb (length f) 6 &&
+    json_uint_text i && all_digits f && negb (is_nil f) && Nat.leb (length f) 6 &&
     Nat.leb (length i + length f) 15 &&
     negb (Byte.eqb (last f b_zero) b_zero)
   | _ => false
@@ -263,9 +398,9 @@ Definition reenc_leaf (l : leaf) (j : tv) : res tv :=
     end
   | LDate, TNull => Bad
   | LDate, _ => Bad
-  | LDateTime, TStr s => if canonical_datetime s then Ok (TStr s) else Dom
-  | LDateTime, _ => Dom
-  | LUUID, TStr s => if canonical_uuid s then Ok (TStr s) else Dom
+  | LDateTime, TStr s => match parse_datetime s with Some c => Ok (TStr c) | None => Bad end
+  | LDateTime, _ => Bad          (* null too: the reader is handed the text null, reads "" from it and refuses that *)
+  | LUUID, TStr s => match parse_uuid s with Some c => Ok (TStr c) | None => Bad end
   | LUUID, TNull => Ok (TStr [])
   | LUUID, _ => Bad
   | LSig, TStr s => if canonical_sig s then Ok (TStr s) else Dom
@@ -286,8 +421,9 @@ Definition zero_leaf (l : leaf) : res tv :=
   | LAmount => Ok (TStr [b_zero])
   | LPercentage => Ok (TStr text_zero_pct)
   | LDate => Ok (TStr text_zero_date)
+  | LDateTime => Ok (TStr text_zero_datetime)
   | LBytes => Ok TNull
-  | LDateTime | LSig | LOpaque _ => Dom
+  | LSig | LOpaque _ => Dom
   end.
 
 (* isEmptyValue on the value a leaf of this type was written from *)
